@@ -1,10 +1,17 @@
 use crate::common::Args;
 
+pub mod c02;
 pub mod c03;
+pub mod c06;
+pub mod c14;
+pub mod c14_extra;
 
 pub fn dispatch(args: &Args) -> i32 {
     match args.id.as_str() {
+        "C02" => c02::run(args),
         "C03" => c03::run(args),
+        "C06" => c06::run(args),
+        "C14" => c14::run(args),
         other => {
             eprintln!("unknown property id {:?}", other);
             3
